@@ -4,8 +4,8 @@
    lowered trees compute the C value and final store (value_C, structural induction);
    (2) a variant [sv] of the helpers elaborates identically wherever it [agrees] (elab_ext);
    (3) the C11 variant of fixes/C01-common-type.diff agrees everywhere. *)
-From PV Require Import Lib.Py Lib.Tac Spec.CIntSpec Spec.CExprSpec Gen.ceval Model.CEval Model.CSema
-                       Model.CGenExpr Spec.IRSyntax Spec.IRSem Proofs.C27_ceval Proofs.C01_arith.
+From PV Require Import Lib.Py Lib.Tac Spec.CIntSpec Spec.CExprSpec Gen.ceval Model.CEval
+                       Model.CGenExpr Spec.IRSyntax Spec.IRSem Proofs.C01_base Proofs.C01_arith.
 From Coq Require Import String.
 Open Scope Z_scope.
 
